@@ -462,6 +462,42 @@ pub fn stress(ctx: &Ctx) -> Stats {
 
 /// inputs of more than 2^20 bases in total (12000..25000 records): scale effects in the shared reader /
 /// work distribution, both modes, judged with the same per-record and inversion monitors
+/// output volume under many workers: long records with a run every other base, so that every worker produces
+/// megabytes of listing text (tens of kilobytes per record) and all of them compete for the writer all the time —
+/// a line lost, duplicated, torn or truncated when worker-local text is handed to the shared writer shows up here.
+pub fn bulk(ctx: &Ctx) -> Stats {
+    let n = ctx.n(2, 10);
+    let mut st = Stats::new();
+    for idx in 0..n {
+        if ctx.expired() {
+            st.truncated = true;
+            break;
+        }
+        let mut rng = Rng::keyed(ctx.seed, "c10.bulk", idx);
+        let m = rng.usize(5, 8);
+        let w = m + rng.usize(1, 3);
+        let nrec = rng.usize(2000, 2600);
+        let recs: Vec<Rec> = (0..nrec)
+            .map(|i| {
+                let len = if rng.chance(1, 40) { rng.usize(0, w) } else { rng.usize(2000, 4000) };
+                Rec { id: format!("B{}", i), desc: None, seq: gen_seq(&mut rng, SeqClass::Uniform, len, true) }
+            })
+            .collect();
+        let total: usize = recs.iter().map(|r| r.seq.len()).sum();
+        let sc = Scratch::new(ctx, "c10B");
+        let inp = sc.write("in.fa", &ser::to_fasta(&recs, &SerOpts::plain()));
+        let mode = if idx % 4 == 3 { MinMode::M2s } else { MinMode::S2m };
+        let threads = [16usize, 8, 5, 16][(idx % 4) as usize];
+        st.case(true, mix(idx) ^ mix(total as u64));
+        st.class(&format!("{:?} threads={}", mode, threads));
+        let res = run_min(mode, w, m, &inp, &sc.path("out.txt"), threads, None);
+        let bytes = res.1.as_ref().map_or(0, |o| o.len());
+        judge(&mut st, mode, &res, &recs, w, m, threads, "bulk");
+        st.sample(Json::obj().set("w", Json::u(w)).set("m", Json::u(m)).set("records", Json::u(nrec)).set("total_bases", Json::u(total)).set("output_bytes", Json::u(bytes)).set("threads", Json::u(threads)).set("mode", Json::s(format!("{:?}", mode))));
+    }
+    st
+}
+
 pub fn large(ctx: &Ctx) -> Stats {
     let n = ctx.n(4, 30);
     par_cases(ctx, n, |idx, st| {
